@@ -79,10 +79,17 @@ class AllExceptions:
     def getattr(self, E, st, obj, name):
         return None
 
+    def _lookup(self, E, st, key):
+        c = getattr(E, "cur_contract", None)
+        if c is not None and hasattr(c, "on_whitelist_lookup"):
+            c.on_whitelist_lookup(E, st, key)
+
     def contains(self, E, st, obj, item):
+        self._lookup(E, st, item)
         return in_all_exceptions(item.e)
 
     def m_getitem(self, E, st, obj, args, kw):
+        self._lookup(E, st, args[0])
         out = []
         for s2, ok in E.branch(st, in_all_exceptions(args[0].e)):
             if ok:
@@ -268,6 +275,10 @@ class DictToClass(Contract):
         elif modname == "builtins":
             E.oblige(st, "the builtins namespace is matched exactly", z3.Or(cn == z3.Concat(z3.StringVal("builtins."), name.e),
                                                                         cn == z3.Concat(z3.StringVal("exceptions."), name.e)), kind="pre")
+
+    def on_whitelist_lookup(self, E, st, key):
+        # C07: the class an exception is rebuilt as is the one its COMPLETE tag names (module-qualified), never a same-named class of another module
+        E.oblige(st, "the exception whitelist is consulted with the complete class tag", key.e == self.classname.e if isinstance(key, VStr) else z3.BoolVal(False), kind="pre")
 
     def on_contract_call(self, E, st, callee, a):
         if callee.name.endswith("make_exception"):
